@@ -551,6 +551,12 @@ fn inside_level(a: Point, b: Point, v: Point, o: Orientation, lt: f64) -> bool {
     (a.y - b.y).abs() <= lt && (v.y - a.y).abs() <= lt
 }
 
+/// another output vertex within `r` of vertex `vi`
+fn has_twin(verts: &[VRec], vi: usize, r: f64) -> bool {
+    let v = verts[vi].pos;
+    verts.iter().enumerate().any(|(wi, w)| wi != vi && dist64((w.pos.x as f64, w.pos.y as f64), v) <= r)
+}
+
 /// Class of a wrong parameter on a level (sweep-horizontal) edge or chord A→B whose carrier line
 /// holds `v`. `level-edge-rounding`: rounding is visibly involved — the chord itself is not exactly
 /// level (jittered flattening of a degenerate curve), or some output vertex on the carrier line is
@@ -749,8 +755,10 @@ fn check_run_inner(spec: &Spec, at: &AttrSpec, cfg: &Cfg, run: &Run, orc: &mut F
                     None => orc.check(false, "fill.vertex/endpoint-source-known", "generic", || format!("vertex {} source endpoint {} is not an endpoint of the path", vi, id.0)),
                     Some(p) => {
                         // exact, up to the rounding of an intersection that lands on the endpoint
-                        // (its parameter rounds to 0 or 1 while its position is an ulp off)
-                        if *p != v.pos && !(dist64((p.x as f64, p.y as f64), v.pos) <= lvl && v.sources.len() > 1) {
+                        // (its parameter rounds to 0 or 1 while its position is an ulp off; then
+                        // the endpoint's own vertex, or the intersection's, is a distinct vertex
+                        // within a few ulps)
+                        if *p != v.pos && !(dist64((p.x as f64, p.y as f64), v.pos) <= lvl && has_twin(&run.verts, vi, 8.0 * lvl)) {
                             let class = classify_endpoint(&geom, *p, v.pos, cfg.orientation, cfg.tol, lvl, id.0, &run.verts, vi);
                             orc.check(false, "fill.vertex/endpoint-source-position", class, || {
                                 format!("vertex {} at {:?} lists endpoint {} which is at {:?}", vi, v.pos, id.0, p)
@@ -833,7 +841,7 @@ fn check_run_inner(spec: &Spec, at: &AttrSpec, cfg: &Cfg, run: &Run, orc: &mut F
             }
         }
         if let Some(id) = v.ep {
-            let good = pos_of.get(&id.0).map_or(false, |p| *p == v.pos || (dist64((p.x as f64, p.y as f64), v.pos) <= lvl && v.sources.len() > 1));
+            let good = pos_of.get(&id.0).map_or(false, |p| *p == v.pos || (dist64((p.x as f64, p.y as f64), v.pos) <= lvl && has_twin(&run.verts, vi, 8.0 * lvl)));
             let class = if good { "generic" } else { pos_of.get(&id.0).map_or("generic", |p| classify_endpoint(&geom, *p, v.pos, cfg.orientation, cfg.tol, lvl, id.0, &run.verts, vi)) };
             orc.check(good, "fill.vertex/as-endpoint-id-position", class, || {
                 format!("vertex {} at {:?}: as_endpoint_id = {} which is at {:?}", vi, v.pos, id.0, pos_of.get(&id.0))
